@@ -1274,14 +1274,16 @@ impl FatVolume {
                 Err(Error::EndOfFile) => {
                     self.update_fat(block_cache, next, ClusterId::EMPTY)?;
                     if let Some(ref mut number_free_cluster) = self.free_clusters_count {
-                        *number_free_cluster += 1;
+                        // (a stale count taken from the info sector may be anywhere near u32::MAX)
+                        *number_free_cluster = number_free_cluster.saturating_add(1);
                     };
                     break;
                 }
                 Err(e) => return Err(e),
             }
             if let Some(ref mut number_free_cluster) = self.free_clusters_count {
-                *number_free_cluster += 1;
+                // (a stale count taken from the info sector may be anywhere near u32::MAX)
+                *number_free_cluster = number_free_cluster.saturating_add(1);
             };
         }
         Ok(())
@@ -1308,7 +1310,8 @@ impl FatVolume {
             _ => self.next_free_cluster = Some(cluster),
         }
         if let Some(ref mut number_free_cluster) = self.free_clusters_count {
-            *number_free_cluster += 1;
+            // (a stale count taken from the info sector may be anywhere near u32::MAX)
+            *number_free_cluster = number_free_cluster.saturating_add(1);
         };
         Ok(())
     }
